@@ -849,6 +849,15 @@ def lower(facts, e):
                     r = apply_closure(facts, src[2][1], [_payload(o, var)])
                     if r is not None:
                         return r
+    if k == 'callptr':
+        # a call through a function pointer whose value is a known closure / fn item (a combinator parameter)
+        c = e[1]
+        while c[0] in ('ref', 'deref') or (c[0] == 'cast' and 'FnPointer' in str(c[1])):
+            c = c[3] if c[0] == 'cast' else c[1]
+        if c[0] == 'fnitem' or (c[0] == 'aggr' and str(c[1]).startswith('closure:')):
+            v = apply_closure(facts, c, list(e[2]))
+            if v is not None:
+                return v
     if k == 'call' and e[2]:
         m = COMB.match(e[1])
         if m:
@@ -1128,6 +1137,26 @@ def simplify_field(e):
             return ag[2][int(idx)]
     if base[0] == 'aggr' and len(base) > 3 and e[2] in (base[3] or []):
         return base[2][base[3].index(e[2])]
+    if base[0] == 'downcast' and base[1][0] == 'phi' and base[2] in ('Ok', 'Some', 'Err') and e[2].lstrip('#') == '0':
+        # (phi(Ok{a} | Err{..} | from_residual(..)) as Ok).0: the downcast selects the branches that build that variant
+        ph = base[1]
+        keep = []
+        for i, br in enumerate(ph[2]):
+            b0 = br
+            while b0[0] in ('ref', 'deref'):
+                b0 = b0[1]
+            if b0[0] == 'aggr' and re.search(r'(result::Result|option::Option)::(Ok|Err|Some|None)$', str(b0[1])):
+                if b0[1].endswith('::' + base[2]) and b0[2]:
+                    keep.append((i, b0[2][0]))
+                continue
+            if b0[0] == 'call' and b0[1].endswith('::from_residual') and base[2] in ('Ok', 'Some'):
+                continue
+            keep.append((i, simplify_field(('field', ('downcast', br, base[2])) + tuple(e[2:]))))
+        if len(keep) == 1:
+            return keep[0][1]
+        if keep and len(keep) < len(ph[2]):
+            idx = [i for i, _ in keep]
+            return ('phi', ph[1], [v for _, v in keep], ph[3], [ph[4][i] for i in idx]) + tuple(ph[5:])
     return e
 
 
